@@ -437,7 +437,7 @@ fn gen_illegal(ctx: &GenCtx) -> Vec<Value> {
     (0..n)
         .map(|i| {
             let mut p = Planner::new(ctx.seed, "c17.illegal", i as u64);
-            let kind = *p.pick(&["partial_nondata", "first_small", "trunc_fixed", "trunc_in_chunk", "trunc_at_boundary", "trunc_at_boundary"]);
+            let kind = *p.pick(&["partial_nondata", "partial_skipped_then_msg", "first_small", "trunc_fixed", "trunc_in_chunk", "trunc_at_boundary", "trunc_at_boundary"]);
             let cfg = msg_cfg(&mut p);
             let len = p.range(1300, 5000);
             json!({"kind": kind, "cfg": cfg, "payload": {"gen":"random","len": len, "key": p.u64()}, "key": *p.pick(&["ed25519-v4","p256-v4","ed25519-v6"]),
@@ -489,6 +489,35 @@ fn run_illegal(plan: &Value, rec: &mut Rec) {
         rec.count("skip:build");
         return;
     };
+    if kind == "partial_skipped_then_msg" {
+        // a packet of a type that message readers skip (marker, padding, tags 40..63), framed with a partial
+        // body length - not allowed for it - in front of a well-formed message: with a definite length the
+        // message behind it is read; with the illegal framing the stream has to be refused
+        let tags: Vec<u8> = [10u8, 21].into_iter().chain(40..=63).collect();
+        let tag = tags[pick % tags.len()];
+        let body: Vec<u8> = if tag == 10 { b"PGP".iter().cycle().take(600).cloned().collect() } else { crate::util::payload_from_json(&json!({"gen":"random","len": 600 + pick % 700, "key": pick as u64})) };
+        let exps = if pick % 3 == 0 { vec![9u8, 0, 3] } else { vec![9u8] };
+        let Some(front) = frame(tag, &body, &LenForm::Partial(exps, Box::new(LenForm::NewMinimal))) else { return };
+        let stream = [&front[..], &canonical[..]].concat();
+        let sk = workload::session_key(&info);
+        let verifiers = workload::verifier_names(cfg);
+        rec.eval(h.0, true);
+        rec.sample(json!({"kind": kind, "tag": tag, "front_len": front.len(), "message_len": canonical.len()}));
+        match read_msg(Arc::new(stream), &sk, &verifiers, sched, cap, &consumer, payload.len() + 1024) {
+            Err(p) => rec.violation("panic", &norm_loc(&p.loc), format!("reader panicked on a partial length for tag {tag}: {}", p.msg), plan.clone()),
+            Ok(o) => {
+                if o.end.is_ok() {
+                    rec.violation(
+                        "illegal-framing-accepted",
+                        "partial-length-on-non-data-packet",
+                        format!("a packet of type {tag} framed with a partial body length in front of a message: the message was read to a clean end ({} payload bytes)", o.data.len()),
+                        plan.clone(),
+                    );
+                }
+            }
+        }
+        return;
+    }
     let sk = workload::session_key(&info);
     let verifiers = workload::verifier_names(cfg);
     let Ok(pk) = deframe(&canonical) else {
